@@ -13,6 +13,9 @@ type Element struct {
 	To    string                 `json:"to,omitempty"`
 	Data  map[string]interface{} `json:"data,omitempty"`
 	Edge  bool                   `json:"edge,omitempty"`
+	// Tainted names top-level properties whose value the documentation leaves open
+	// (reference interpreter only, see EvalX); reading one makes a case unspecified
+	Tainted map[string]bool `json:"-"`
 }
 
 // Graph is the abstract graph: ids unique per kind. Endpoints of an edge need not exist.
